@@ -78,6 +78,10 @@ def run(ctx):
     for fn_, k_, live_, loc_ in c01_.callback_guard_sites(core):
         ctx.inst("C13.R7", "%s#callback%d" % (fn_.replace("blots_core::", ""), k_), not live_, "heap guards that may be live during the callback: %s" % (live_ or "none"), loc_)
 
+    # ---------------- R8 the function named on the right of via / where / into is captured like any other name
+    ctx.rule("C13.R8", "inside a function, `xs via g` sees the same g as `map(xs, g)`: the capture analysis scans both operands of every binary operator unconditionally, and every call argument", floor=2)
+    c04.free_variable_rule(ctx, "C13.R8", core, only=lambda k_: k_.startswith("recurses-into=Expr::BinaryOp") or k_.startswith("recurses-into=Expr::Call"))
+
     # ---------------- R1 definition / this pairing
     ctx.rule("C13.R1", "at every FunctionDef::call site the function definition comes from get_function_def(F) and the `this` argument is that same value F (so a named function sees itself under its own name)", floor=16)
     this_pairing(ctx, "C13.R1", core, sites)
@@ -120,6 +124,9 @@ def run(ctx):
             ctx.inst("C13.R2", key, True, "direct call: evaluated arguments, spreads flattened", H.loc(n))
         else:
             ok = None if shape is None else shape == ("plain", 1)
+            if ok is None and a[0] == "if" and len(a) >= 4 and a[2] != a[3]:
+                # `x into f` is f(x) for every f: an argument list chosen by a condition (on the arity, on the operand) is not that
+                ok = False
             ctx.inst("C13.R2", key, ok, "argument list %s -> %s (one argument)" % (S.show(a)[:100], shape), H.loc(n))
     # the item passed is the element at the loop position of the list operand
     # ---------------- R3 result handling
@@ -227,6 +234,16 @@ def run(ctx):
                     init = S.norm({"k": "Path", "res": {"local": init[1]}}, sc_[0][1])
             okr = S.both(S.verdict(init, ("index", ("param", "args"), ("lit", "2"))) if init is not None else None, bool(first_is_acc), fin == acc)
             dr = "accumulator starts as args[2] (%s), is the first callback argument (%s), is reassigned from each result and returned (%s)" % (S.show(init) if init else None, first_is_acc, fin == acc)
+            # positively wrong whatever the rest looks like: a seed chosen by a condition (the fold "repairs" some seeds), or a walk that
+            # does not start at the first element
+            for n_ in H.walk(ra["body"]):
+                if isinstance(n_, dict) and n_.get("k") == "Let" and n_.get("init") is not None and acc in H.pat_binds(n_["pat"]) and H.kind(H.final_expr(n_["init"])) in ("If", "Match"):
+                    okr, dr = False, "the accumulator's starting value is chosen by a condition (%s): for some seeds the fold does not start from the given initial value" % H.loc(n_["init"])
+            it_ = H.strip(fors[0]["iter"])
+            if H.kind(it_) == "Struct" and (it_.get("res") or {}).get("def", "").endswith("ops::range::Range"):
+                st_ = [f_["e"] for f_ in it_.get("fields", []) if f_["name"] == "start"]
+                if st_ and not (H.lit(st_[0]) and H.lit(st_[0])["v"] in ("0", 0)):
+                    okr, dr = False, "the fold's index range does not start at 0 (%s): leading elements are skipped" % H.loc(it_)
     ctx.inst("C13.R3", "builtin#Reduce", okr, dr, H.loc(ra["body"]) if ra else None)
 
     # ---------------- R4 depth policy
